@@ -273,6 +273,11 @@ func runC19(args []string) int {
 			a = append(a, c19Shift(c19Rules(fd), w.LineShift+d.RelLine, w.ColShift+d.RelCol)...)
 		}
 		a = append(a, c19Shift(c19Rules(frBase), w.LineShift, w.ColShift)...)
+		// ... then what `groups:` keys written after the wrapping key contribute (a mapping yields its fields' rules in key order)
+		for _, d := range w.After {
+			fd, _ := parseReal([]byte("- record: "+d.Name+"\n  expr: "+d.Expr+"\n"), false, schema, names)
+			a = append(a, c19Shift(c19Rules(fd), w.LineShift+d.RelLine, w.ColShift+d.RelCol)...)
+		}
 		b := c19Rules(frWrap)
 		rep.hist("wrapper:" + fmt.Sprint(levels))
 		if ok, why := c19Equal(a, b); !ok {
